@@ -2,7 +2,7 @@
 import io
 import struct
 
-from vf import usage
+from vf import usage, streams
 from vf.enc import elf as W
 from vf.choose import RndChooser, composite_from
 
@@ -169,7 +169,9 @@ def run_case(ctx, case):
     cls = case['cls']
     M = (1 << cls) - 1
     try:
-        ef = L['ELFFile'](io.BytesIO(data))
+        st0, skind = streams.pick(data)        # BytesIO, minimal read/seek/tell object, memory map or real file
+        ctx.count('stream.' + skind)
+        ef = L['ELFFile'](st0)
         tab = ef.get_section(2 + case.get('pad', 0))
     except Exception as e:  # noqa
         ctx.fail_exc('open', e, case)
